@@ -247,6 +247,16 @@ func (c *Ctx) specCall(name string, e *ast.CallExpr) (Value, bool) {
 			panic(engineErr("%s(s): byte slice expected", name))
 		}
 		return Scalar(x.byteOrder32(name, v.Arr), types.Typ[types.Uint32]), true
+	case "called":
+		// called(f): the contracted function f was called on this path
+		id, ok := e.Args[0].(*ast.Ident)
+		if !ok || len(e.Args) != 1 {
+			panic(engineErr("called(f): function name expected"))
+		}
+		if c.st.after["<"+id.Name] != nil {
+			return Scalar(True, boolT), true
+		}
+		return Scalar(False, boolT), true
 	case "beforecall":
 		// beforecall(f, e): the value of e right before the most recent call of the contracted function f on this path
 		// (the current value when f was not called on this path)
